@@ -672,6 +672,7 @@ func SetSchema(openAPIField map[string]string, schema []byte, reset bool) error 
 	}
 
 	// use builtin version
+	previousVersion := kubernetesOpenAPIVersion
 	kubernetesOpenAPIVersion = version
 	if kubernetesOpenAPIVersion == "" {
 		if customSchema != nil {
@@ -690,10 +691,29 @@ func SetSchema(openAPIField map[string]string, schema []byte, reset bool) error 
 		// the definitions of the custom schema must not leak into the built-in one
 		customSchema = nil
 		dropParsedSchema()
+		return nil
+	}
+	if sameBuiltinVersion(previousVersion, version) {
+		// the same built-in schema is already selected: keep what has been parsed.
+		// Re-arming initSchema here would make the next caller parse again and
+		// rewrite the schema maps while other goroutines read them without the lock.
+		return nil
 	}
 	// if the schema is changed, initSchema should parse the new schema
 	globalSchema.schemaInit = false
 	return nil
+}
+
+// sameBuiltinVersion reports whether two values of kubernetesOpenAPIVersion select
+// the same built-in schema ("" selects the default version).
+func sameBuiltinVersion(a, b string) bool {
+	if a == "" {
+		a = kubernetesOpenAPIDefaultVersion
+	}
+	if b == "" {
+		b = kubernetesOpenAPIDefaultVersion
+	}
+	return a == b
 }
 
 // GetSchemaVersion returns what kubernetes OpenAPI version is being used
